@@ -56,6 +56,73 @@ def _spellable(tree, node_id):
     return True
 
 
+def _real_suspect(el):
+    """the element is (below) a Dict child of one of the three open classes KF-C13-a/b/c, judged on the real
+    elements: a name '' or a key different from the name on the way, or a proper ancestor whose name ends in a
+    backslash"""
+    from flatland.schema.base import Slot
+    from flatland.schema.containers import Mapping
+    cur, first = el, True
+    while cur.parent is not None:
+        par = cur.parent
+        if isinstance(par, Slot):
+            cur = par
+            continue
+        if isinstance(par, Mapping) and not isinstance(cur, Slot):
+            nm = cur.name
+            if nm is None or nm == "" or (nm.endswith("\\") and not first):
+                return True
+            try:
+                if par[nm] is not cur:
+                    return True
+            except Exception:  # noqa: BLE001
+                return True
+        first = False
+        cur = par
+    return False
+
+
+def _real_tree_failures(root, why):
+    """C13 stated on the REAL tree without labels (used when the description cannot be matched to the real
+    tree because a rejected list operation left something behind): every element reachable from the root —
+    `all_children` — is found, alone, by its own fq_name() from the root and from the last element"""
+    fails = []
+    if root.fq_name() != "/":
+        fails.append({"clause": "root-is-slash", "expected": "/", "observed": root.fq_name()})
+    els = [root] + list(root.all_children)
+    starts = [root, els[-1]]
+
+    def show(x):
+        try:
+            return "%s@%s" % (type(x).__name__, cm.enc(x.fq_name()))
+        except Exception as e:  # noqa: BLE001
+            return "%s@<%s>" % (type(x).__name__, cm.exc_name(e))
+    for idx, el in enumerate(els):
+        if _real_suspect(el):
+            continue
+        try:
+            p = el.fq_name()
+        except Exception as e:  # noqa: BLE001
+            cm.reraise_timeout(e)
+            fails.append({"clause": "fq_name-raises-real-tree", "element": "#%d" % idx, "expected": "a path",
+                          "observed": cm.exc_name(e)})
+            continue
+        for si, s_el in enumerate(starts):
+            try:
+                got = s_el.find(p)
+                ok = len(got) == 1 and got[0] is el
+                obs = [show(g) for g in got]
+            except Exception as e:  # noqa: BLE001
+                cm.reraise_timeout(e)
+                ok, obs = False, cm.exc_name(e)
+            if not ok:
+                fails.append({"clause": "inverse-real-tree", "element": "#%d in all_children order" % idx,
+                              "element_value": repr(getattr(el, "value", None))[:80],
+                              "start": "root" if si == 0 else "last element", "fq_name": cm.enc(p),
+                              "expected": "exactly that element", "observed": obs, "tree_shape": why})
+    return fails
+
+
 EXH_ALPHABET = ["/", "[", "]", ".", "\\", "a", "0"]
 
 
@@ -203,6 +270,29 @@ class C13(Property):
         for h in ([{"at": [], "op": "pop", "i": 0}], [{"at": [], "op": "delitem", "i": 0}],
                   [{"at": [], "op": "setitem", "i": 1, "nodes": [newm], "detached": True, "pre": []}]):
             out.append(self._case(cm.simulate(rows, h), [0], rows, h))
+        # seeded mutation C13-insert-sets-after-placing: List.insert(i, <value the member schema rejects by
+        # raising>) must leave the list as it was (no blank member, no stale slot names) — the demo's history:
+        # a successful insert, the rejected insert at 0 (caught), then an append (which does not renumber)
+        pt_schema = {"k": "d", "name": "point", "fields": [{"k": "s", "name": "x"}, {"k": "s", "name": "y"}]}
+        pt = lambda: {"k": "d", "name": "point", "kids": [_leaf("x"), _leaf("y")]}
+        form2 = cm.number({"k": "d", "name": "form", "kids": [
+            _leaf("title"), {"k": "l", "name": "points", "member": pt_schema, "kids": [pt(), pt()]}]})
+        nxt2 = [cm._max_id(form2) + 1]
+
+        def fresh_pt():
+            r = pt()
+            nxt2[0] = cm._number_from(r, nxt2[0])
+            return r
+        rej = {"at": [1], "op": "rejected", "kind": "insert-bad", "i": 0, "bad": {"x": "7", "z": "8"}}
+        for h in ([{"at": [1], "op": "insert", "i": 1, "nodes": [fresh_pt()]}, dict(rej),
+                   {"at": [1], "op": "append", "nodes": [fresh_pt()]}],
+                  [dict(rej)],
+                  [dict(rej, i=1), {"at": [1], "op": "iadd", "nodes": [fresh_pt()]}],
+                  [{"at": [1], "op": "rejected", "kind": "extend-bad", "bad": {"z": "8"}, "nodes": [fresh_pt()]}],
+                  [{"at": [1], "op": "rejected", "kind": "setslice-bad", "a": 0, "b": 1, "bad": {"z": "8"}, "nodes": [fresh_pt()]}],
+                  [{"at": [1], "op": "rejected", "kind": "pop-oor", "i": 5}, {"at": [1], "op": "append", "nodes": [fresh_pt()]}]):
+            final2 = cm.simulate(form2, h)
+            out.append(self._case(final2, [0, [n["id"] for n in cm.preorder(final2)][-1]], form2, h))
         # open KF-C13-b: empty field name
         t3 = cm.number({"k": "d", "name": "root", "kids": [_leaf(""), {"k": "d", "name": "a", "kids": [_leaf("")]}]})
         out.append(self._case(t3, [0, 2]))
@@ -247,7 +337,8 @@ class C13(Property):
             if rng.random() < 0.45:
                 # the tree is reached through a history of list mutations (public List API)
                 final, history = cm.rand_history(rng, tree, rng.choice([1, 1, 2, 3, 4]),
-                                                 setfield=rng.choice([0.0, 0.0, 0.3]))
+                                                 setfield=rng.choice([0.0, 0.0, 0.3]),
+                                                 rejected=rng.choice([0.0, 0.3, 0.5]))
                 if history:
                     init, tree = tree, final
             nodes = list(cm.preorder(tree))
@@ -261,7 +352,12 @@ class C13(Property):
 
     # -------------------------------------------------------------- implementation
     def _observe(self, case):
-        root, byid, label = cm.build_case(case)
+        try:
+            root, byid, label = cm.build_case(case)
+        except cm.ShapeMismatch:
+            # a rejected list operation left something behind: the elements cannot be labelled, the (empty)
+            # observation disagrees with the model's, and the oracle judges the real tree label-free
+            return [], []
         fq, found = [], []
         for n in cm.preorder(case["tree"]):
             el = byid[n["id"]]
@@ -287,7 +383,10 @@ class C13(Property):
 
     # -------------------------------------------------------------- oracle
     def oracle(self, case):
-        root, byid, label = cm.build_case(case)
+        try:
+            root, byid, label = cm.build_case(case)
+        except cm.ShapeMismatch as e:
+            return _real_tree_failures(e.root, e.msg)
         fails = []
         if root.fq_name() != "/":
             fails.append({"clause": "root-is-slash", "expected": "/", "observed": root.fq_name()})
@@ -444,8 +543,18 @@ class C13(Property):
         t.append("history=%d" % len(hist))
         for rec in case.get("removed", []):
             t.append("removed-member:%s" % rec["how"])
-        for op in hist:
+        for i, op in enumerate(hist):
             t.append("listop:%s" % op["op"])
+            if op["op"] == "rejected":
+                t.append("rejected:%s" % op["kind"])
+                later = [o["op"] for o in hist[i + 1:] if o["op"] not in ("query", "setfield") and o["at"] == op["at"]]
+                if not later:
+                    t.append("rejected-then:nothing-on-that-list")
+                elif all(o in ("append", "iadd", "extend", "rejected") for o in later):
+                    t.append("rejected-then:non-renumbering-ops-only")
+                else:
+                    t.append("rejected-then:renumbering-op")
+                continue
             if op.get("detached"):
                 t.append("listop:graft-detached-element")
                 if op.get("pre"):
@@ -498,8 +607,18 @@ C13.rule = (
     "of a renamed subclass of the field schema, through the public API; paths are evaluated from random elements in "
     "between, and half of the inserted members are built as free-standing elements, queried (absolute and relative "
     "paths, from inside them) and only then grafted as Element objects (append/insert/slice/item assignment/+=), and "
-    "are start elements of the final evaluation; the model sees "
-    "the resulting tree, whose slot names are positional); every element's fq_name() is evaluated from the root and 3 random "
+    "are start elements of the final evaluation; in two thirds of those histories each operation is with "
+    "probability 0.3 / 0.5 a REJECTED one — insert / slice assignment / extend / += / append of a value the member "
+    "schema rejects by raising (an undeclared key for Dict and SparseDict members, also nested in List members), "
+    "insert / item assignment with a non-integer index, item assignment / del / pop out of range or on an empty "
+    "list, slice assignment / extend of a non-iterable, remove of an absent value (lists of scalars) — caught, then "
+    "0-2 further successful operations, preferably on the same list and preferably append / += (which do not "
+    "renumber); the description is simulated with 'a rejected operation leaves the list as it was' (extend / += keep "
+    "the members before the rejected one), so the model sees "
+    "the resulting tree, whose slot names are positional — the Lean tree is built from that description, not "
+    "extracted from the real tree, so a rejected operation that leaves something behind shows as a disagreement, "
+    "and when the real tree cannot be matched to the description the oracle states C13 label-free on the real tree "
+    "(every element of root.all_children, from the root and from the last element; clause inverse-real-tree)); every element's fq_name() is evaluated from the root and 3 random "
     "elements; non-trivial = tree of >= 3 elements")
 
 PROP = C13()
